@@ -30,7 +30,9 @@ struct Query {
   int64_t b = 0;      // packed civil month..second
   int fmt = 0;        // index into kFormats
   std::string s;      // parse input
+  std::string fs;     // format string; empty: kFormats[fmt]
 };
+std::string gen_format(Rng* r);   // a sentence of cctz's format grammar (strftime specifiers, flags and widths, %E extensions, literals)
 extern const char* const kFormats[];
 extern const int kNumFormats;
 
